@@ -1,5 +1,5 @@
 (* C04 -- persistence is faithful or it refuses: never a quietly different object. *)
-From Skv Require Import CodecGuards CodecWitness CodecShareFacts CodecFacts CodecRootFacts.
+From Skv Require Import CodecGuards CodecWitness CodecShareFacts CodecFacts CodecRootFacts CodecInsideFacts CodecCollideFacts.
 From Gen Require Import Snapshot.
 
 Definition rt (v : pval) : res pval :=
@@ -14,8 +14,8 @@ Definition C04_faithful_or_refuses_full_statement : Prop :=
     | Raise _ => True
     end.
 
-(* With the explicit decidable guard c04_ok (coq/io/CodecGuards.v: no scalar-subclass instance, no colliding or
-   uncoercible dict keys, no property-valued entry, defaultdict/tuple of exact class, no hidden payload on the
+(* With the explicit decidable guard c04_ok (coq/io/CodecGuards.v: no scalar-subclass instance, no uncoercible dict
+   key (keys with the same JSON spelling are refused by the dump, see C04_same_spelling_refused), no property-valued entry, defaultdict/tuple of exact class, no hidden payload on the
    object path, object arrays of rank 1 or with non-sequence cells, ...), on the fragment proved by induction
    (see C05_roundtrip_partial for its description and for what is missing): the loaded value is v itself.
    On every generated value with c04_ok the model (by vm_compute) and the implementation are checked to be
@@ -45,8 +45,6 @@ Print Assumptions C04_dump_pure.
 Definition corrupts (w : pval) : Prop :=
   match rt w with Ok v' => negb (same v' w) | Raise _ => false end = true.
 
-Theorem C04_colliding_keys_refuted : corrupts w_colliding_keys.            (* D08  {1:'a','1':'b'} -> {1:'b'} *)
-Proof. vm_compute. reflexivity. Qed.
 Theorem C04_frozenset_refuted : corrupts w_frozenset.                      (* D09  frozenset({1}) -> frozenset() *)
 Proof. vm_compute. reflexivity. Qed.
 Theorem C04_deque_refuted : corrupts w_deque.                              (* D09  deque([1,2]) -> deque([]) *)
@@ -64,9 +62,49 @@ Print Assumptions C04_objarray_refuted.
 (* the guard excludes every witness *)
 Theorem C04_guard_excludes_witnesses :
   forallb (fun w => negb (c04_ok wf w))
-    [w_colliding_keys; w_frozenset; w_deque; w_objarr_seq; w_property_value; w_myint; w_mystr;
+    [w_frozenset; w_deque; w_objarr_seq; w_property_value; w_myint; w_mystr;
      w_surrogates] = true.
 Proof. vm_compute. reflexivity. Qed.
+
+(* D08, fixed in the repository (fix: refuse to persist a dict two of whose keys have the same JSON spelling): the former
+   witness {1:'a','1':'b'} (it loaded as {1:'b'}) now makes dumps raise ValueError, and so do the other shapes of the
+   collision (str first, float, bool, defaultdict, nested behind entries that are written first); the guard c04_ok
+   does not have to exclude them any more *)
+Theorem C04_colliding_keys_refused :
+  dumps_model (wd Snapshot.current) wbase w_colliding_keys = Raise EValue
+  /\ forallb (fun w => match dumps_model (wd Snapshot.current) wbase w with Raise EValue => true | _ => false end) w_colliding_more = true
+  /\ c04_ok wf w_colliding_keys = true /\ forallb (c04_ok wf) w_colliding_more = true.
+Proof. repeat split; vm_compute; reflexivity. Qed.
+Print Assumptions C04_colliding_keys_refused.
+
+(* In general: a dict or defaultdict two of whose kept keys (entries whose value is not a property; keys json can write)
+   have the same JSON spelling is refused -- whatever its values are and wherever it sits inside the value that is
+   dumped (at any position the dumper serialises), dumps raises: the ValueError of dict_get_state, unless the key
+   types or a value serialised before the second key is reached raise first.  By induction on the entries
+   (coq/io/CodecCollideFacts.v) and on the position (coq/io/CodecInsideFacts.v). *)
+Theorem C04_same_spelling_refused :
+  forall (D : denv) (base : Z) (x v : pval),
+    same_spelling_dict x = true -> inside x v -> exists e, dumps_model D base v = Raise e.
+Proof. exact same_spelling_dumps_raises. Qed.
+Print Assumptions C04_same_spelling_refused.
+
+(* the order of effects: an earlier value's own exception wins, a later value is not reached; a property value is
+   skipped before its key is looked at ({1: property, '1': 'b'} has one kept key: no collision, the old D26 behaviour) *)
+Example C04_same_spelling_order :
+  dumps_model (wd Snapshot.current) wbase w_colliding_earlier_raises = Raise EUnsupported
+  /\ dumps_model (wd Snapshot.current) wbase w_colliding_later_unsup = Raise EValue
+  /\ same_spelling_dict w_colliding_skipped = false
+  /\ match dumps_model (wd Snapshot.current) wbase w_colliding_skipped with Ok _ => true | Raise _ => false end = true.
+Proof. repeat split; vm_compute; reflexivity. Qed.
+
+(* non-vacuity of C04_same_spelling_refused: the witnesses satisfy its premise *)
+Example C04_same_spelling_nonvacuous :
+  same_spelling_dict w_colliding_keys = true /\ inside w_colliding_keys w_colliding_keys
+  /\ (exists x, same_spelling_dict x = true /\ inside x (plist 9 [pint 7; x; w_nested])).
+Proof.
+  split; [vm_compute; reflexivity|]. split; [apply in_here|].
+  exists w_colliding_keys. split; [vm_compute; reflexivity|]. eapply in_seq; [right; left; reflexivity|apply in_here].
+Qed.
 
 (* D07, fixed in the repository (fix: dict with bool keys ...): {False:'x', True:'y'} now loads as itself *)
 Theorem C04_bool_keys_fixed : rt w_bool_keys = Ok w_bool_keys /\ c04_ok wf w_bool_keys = true.
